@@ -141,6 +141,9 @@ func (s *Service) onFindNode(ctx context.Context, peer p2p.Peer, stream p2p.Stre
 	if req.Limit > maxPeersLimit {
 		req.Limit = maxPeersLimit
 	}
+	if req.Limit < 0 {
+		req.Limit = 0
+	}
 	resp := &pb.Peers{}
 
 	target := boson.NewAddress(req.Target)
@@ -188,6 +191,10 @@ func (s *Service) onFindNode(ctx context.Context, peer p2p.Peer, stream p2p.Stre
 	knownResult := randPeersLimit(resp.Peers, limitKnown)
 
 	resp.Peers = append(connResult, knownResult...)
+	if len(resp.Peers) > int(req.Limit) {
+		// never return more peers than requested (limits below 2 are served from one connected and one known peer)
+		resp.Peers = resp.Peers[:req.Limit]
+	}
 	s.metrics.OnFindNodePeers.Add(float64(len(resp.Peers)))
 
 	err = w.WriteMsgWithContext(ctx, resp)
